@@ -1,6 +1,9 @@
 /* roll_diff.c - BOUNDED native check of the assumed contract of the NASM scan loops
- * _rolling_hash2_run_until_00 / _04: same (index, hash) as the C loop _rolling_hash2_run_until_base,
- * whose contract is PROVED.  Bound: w in [1,48], scan lengths 0..LMAX beyond w, masks with 0..4 bits,
+ * _rolling_hash2_run_until_00 / _04: (a) for triggers inside the mask the same (index, hash) as the C loop
+ * _rolling_hash2_run_until_base, whose contract is PROVED; (b) for ARBITRARY triggers the contract itself
+ * (contracts/rolling_prelude.h VF_C_RUN_UNTIL) against a recomputed hash stream: an early stop only where the
+ * masked bits match, returned hash = hash after the byte at the returned index (early stop) or after the last
+ * byte, no skipped position with (hash & mask) == trigger.  Bound: w in [1,48], scan lengths 0..LMAX beyond w, masks with 0..4 bits,
  * NSEED random buffers each.  Prints the first disagreement as a replayable input. */
 #include <stdio.h>
 #include <stdlib.h>
@@ -12,6 +15,75 @@ uint64_t _rolling_hash2_run_until_04(uint32_t *, int, uint64_t *, uint64_t *, ui
 extern uint64_t rolling_hash2_table1[256];
 static uint64_t x = 88172645463325252ull;
 static uint64_t rnd(void) { x ^= x << 13; x ^= x >> 7; x ^= x << 17; return x; }
+typedef uint64_t (*scan_fn)(uint32_t *, int, uint64_t *, uint64_t *, uint8_t *, uint8_t *, uint64_t, uint64_t, uint64_t);
+static int contract(const char *name, scan_fn f, unsigned w, unsigned len, uint64_t *t2, uint8_t *buf, uint64_t h0, uint64_t mask, uint64_t trig)
+{
+        static uint64_t H[8192];
+        uint64_t h = h0;
+        for (unsigned r = w; r < len; r++) {
+                h = (h << 1) | (h >> 63);
+                h ^= rolling_hash2_table1[buf[r]] ^ t2[buf[r - w]];
+                H[r] = h;
+        }
+        uint32_t idx = w;
+        uint64_t ret = f(&idx, (int) len, rolling_hash2_table1, t2, buf, buf - w, h0, mask, trig);
+        const char *why = 0;
+        if (idx < w || idx > len) why = "index out of range";
+        else if (idx < len && ((ret & mask) != (trig & mask) || ret != H[idx])) why = "early stop without masked match / wrong hash";
+        else if (idx >= len && ret != (len > w ? H[len - 1] : h0)) why = "hash after the last byte wrong";
+        for (unsigned r = w; !why && r < idx && r < len; r++)
+                if ((H[r] & mask) == trig) why = "skipped a hit";
+        if (why) {
+                printf("CONTRACT %s: %s: w=%u len=%u mask=%#llx trigger=%#llx h0=%#llx idx=%u ret=%#llx\n", name, why, w, len,
+                       (unsigned long long) mask, (unsigned long long) trig, (unsigned long long) h0, idx, (unsigned long long) ret);
+                printf("buffer:"); for (unsigned i = 0; i < len; i++) printf(" %02x", buf[i]); printf("\n");
+                return 1;
+        }
+        return 0;
+}
+/* (c) end to end: isal_rolling_hash2_{init,reset,run} (dispatched scan + the C wrapper) over a random stream cut into
+ * random run calls, against the property's own definition: hit at the first position whose CLOSED-FORM window hash
+ * XOR_{j<w} rol(T1[byte(e-j)], j) satisfies (hash & mask) == trigger, otherwise max_len bytes consumed. */
+#include "rolling_hashx.h"
+static uint64_t closed(const uint8_t *S, long e, unsigned w)
+{
+        uint64_t h = 0;
+        for (unsigned j = 0; j < w; j++) {
+                uint64_t v = rolling_hash2_table1[S[e - j]];
+                h ^= j ? ((v << j) | (v >> (64 - j))) : v;
+        }
+        return h;
+}
+static int end_to_end(unsigned long *calls, unsigned nstreams)
+{
+        static uint8_t S[6000];
+        static struct isal_rh_state2 st;
+        for (unsigned n = 0; n < nstreams; n++) {
+                unsigned w = 1 + rnd() % 48, total = w + rnd() % 5000;
+                uint32_t masks[6] = { 0, 1, 3, 0xf, 0x3f, 0x11 };
+                uint32_t mask = masks[rnd() % 6], trig = (rnd() % 4) ? (uint32_t) rnd() & mask : (uint32_t) rnd() & (mask | 0x21);
+                for (unsigned i = 0; i < total; i++) S[i] = (uint8_t) rnd();
+                if (isal_rolling_hash2_init(&st, w) || isal_rolling_hash2_reset(&st, S)) { printf("E2E init/reset failed w=%u\n", w); return 1; }
+                unsigned cur = w;
+                while (cur < total) {
+                        uint32_t maxlen = (rnd() % 3 == 0) ? rnd() % (2 * w + 2) : rnd() % (total - cur + 1);
+                        if (maxlen > total - cur) maxlen = total - cur;
+                        uint32_t off = 0xdeadbeef; int match = -1;
+                        int r = isal_rolling_hash2_run(&st, S + cur, maxlen, mask, trig, &off, &match);
+                        (*calls)++;
+                        uint32_t eoff = maxlen; int ematch = 1; /* ISAL_FINGERPRINT_RET_MAX */
+                        for (uint32_t p = 0; p < maxlen; p++)
+                                if ((closed(S, (long) cur + p, w) & mask) == trig) { eoff = p + 1; ematch = 0; break; }
+                        if (r != 0 || off != eoff || match != ematch) {
+                                printf("E2E isal_rolling_hash2_run: w=%u stream_pos=%u max_len=%u mask=%#x trigger=%#x: got ret=%d match=%d offset=%u, "
+                                       "definition says match=%d offset=%u\n", w, cur, maxlen, mask, trig, r, match, off, ematch, eoff);
+                                return 1;
+                        }
+                        cur += off;
+                }
+        }
+        return 0;
+}
 int main(int argc, char **argv)
 {
         unsigned lmax = argc > 1 ? atoi(argv[1]) : 70, nseed = argc > 2 ? atoi(argv[2]) : 10;
@@ -32,6 +104,16 @@ int main(int argc, char **argv)
                                         uint64_t h00 = _rolling_hash2_run_until_00(&i0, (int) len, rolling_hash2_table1, t2, buf, buf - w, h0, mask, trig);
                                         uint64_t h04 = _rolling_hash2_run_until_04(&i4, (int) len, rolling_hash2_table1, t2, buf, buf - w, h0, mask, trig);
                                         calls += 3; distinct++;
+                                        {
+                                                uint64_t trig2 = rnd() & (mask | 0x33); /* may have bits outside the mask */
+                                                if (contract("_base", _rolling_hash2_run_until_base, w, len, t2, buf, h0, mask, trig2) ||
+                                                    contract("_00", _rolling_hash2_run_until_00, w, len, t2, buf, h0, mask, trig2) ||
+                                                    contract("_04", _rolling_hash2_run_until_04, w, len, t2, buf, h0, mask, trig2)) {
+                                                        printf("calls=%lu cases=%lu\n", calls, distinct);
+                                                        return 1;
+                                                }
+                                                calls += 3; distinct++;
+                                        }
                                         if (ib != i0 || hb != h00 || ib != i4 || hb != h04) {
                                                 printf("DISAGREE w=%u len=%u mask=%#llx trigger=%#llx h0=%#llx: base idx=%u hash=%#llx | _00 idx=%u hash=%#llx | _04 idx=%u hash=%#llx\n",
                                                        w, len, (unsigned long long) mask, (unsigned long long) trig, (unsigned long long) h0, ib,
@@ -42,6 +124,10 @@ int main(int argc, char **argv)
                                         }
                                 }
                         }
+        }
+        if (end_to_end(&calls, lmax * nseed)) {
+                printf("calls=%lu cases=%lu\n", calls, distinct);
+                return 1;
         }
         printf("AGREE calls=%lu cases=%lu\n", calls, distinct);
         return 0;
